@@ -3,14 +3,16 @@ table: {"C01c": {"change": ..., "needs": ..., "verdict": ...}, ...}"""
 import json, os, shutil, sys
 tab = json.load(open(sys.argv[1]))
 for sid, m in tab.items():
-    P, x = sid[:3], {"c": "a", "d": "b"}[sid[3]]
-    src = f"/tmp/seed2/{P}/seeded_out/{x}"
+    P = sid[:3]
+    rnd = 2 if sid[3] in "cd" else 3
+    x = {"c": "a", "d": "b", "e": "a", "f": "b", "g": "c"}[sid[3]]
+    src = f"/tmp/seed{rnd}/{P}/seeded_out/{x}"
     dst = f"/verif/seeded/{sid}"
     os.makedirs(dst, exist_ok=True)
     for f in ("patch.diff", "demo.py", "README.md"):
         if os.path.exists(os.path.join(src, f)):
             shutil.copy(os.path.join(src, f), os.path.join(dst, f))
-    meta = {"property": P, "round": 2, "change": m["change"], "needs_to_manifest": m["needs"],
+    meta = {"property": P, "round": rnd, "change": m["change"], "needs_to_manifest": m["needs"],
             "confirmed": "patch applies to /repo HEAD with the fix: commits; demo.py exits 0 unchanged and 1 patched; the same 130 baseline tests pass with the patch (harness/seed_eval2.sh in a scratch worktree)",
             "check_run": f"COLA_REPO=<scratch worktree with the patch> ./check {m.get('check', P)}", "verdict": m["verdict"]}
     json.dump(meta, open(os.path.join(dst, "meta.json"), "w"), indent=1)
